@@ -157,7 +157,8 @@ class EntryInterpreter:
     `resolve_symbol(expr)` maps an expression to ('L', key) / ('H', key) / None, where key identifies the component.
     """
 
-    def __init__(self, func: ast.FunctionDef, xname: str, resolve_symbol, expected_key: str):
+    def __init__(self, func: ast.FunctionDef, xname: str, resolve_symbol, expected_key: str, call_summary=None):
+        self.call_summary = call_summary
         self.func = func
         self.xname = xname
         self.resolve_symbol = resolve_symbol
@@ -206,6 +207,10 @@ class EntryInterpreter:
                 return top()
         if isinstance(e, ast.Call):
             name = _call_name(e)
+            if self.call_summary is not None:
+                r = self.call_summary(e, st, self)
+                if r is not None:
+                    return r
             if name in ("math.fmod", "fmod") and len(e.args) == 2:
                 m = self.eval(e.args[1], st)
                 if m.is_point() == 1:
